@@ -285,6 +285,27 @@ impl Prog {
     }
 }
 
+/// program variables an operation reads
+pub fn uses(op: &Op) -> Vec<usize> {
+    match op {
+        Op::Input(_) | Op::Const(_) => vec![],
+        Op::Add(a, b) | Op::Sub(a, b) | Op::Mul(a, b) | Op::Div(a, b) | Op::IsEqual(a, b) | Op::And(a, b) | Op::Or(a, b)
+        | Op::ExtMulNorm(a, b) | Op::Connect(a, b) => vec![*a, *b],
+        Op::MulAdd(a, b, c) | Op::Select(a, b, c) => vec![*a, *b, *c],
+        Op::Arith(_, _, x, y, z) => vec![*x, *y, *z],
+        Op::Neg(a) | Op::Not(a) | Op::SplitSum(a, _) | Op::RangeCheck(a, _) | Op::ExpU64(a, _) | Op::SplitBase4(a, _)
+        | Op::Public(a) | Op::Lookup(_, a) | Op::CopyGen(a) | Op::LowHigh(a, _, _) | Op::SplitBase2(a, _) => vec![*a],
+        Op::ExpBits(a, e, _) => vec![*a, *e],
+        Op::ExpConstBase(_, e, _) => vec![*e],
+        Op::RandomAccess(i, vs) => { let mut v = vec![*i]; v.extend(vs); v }
+        Op::Hash(xs) => xs.clone(),
+        Op::ExtArith(_, _, x, _) => x.to_vec(),
+        Op::DivExt(x, _) => x.to_vec(),
+        Op::ReduceBase(al, ts, _) => { let mut v = al.to_vec(); v.extend(ts); v }
+        Op::ReduceExt(al, ts, _) => { let mut v = al.to_vec(); for t in ts { v.extend(t); } v }
+    }
+}
+
 /// A random, satisfiable program. `features`: bit 0 lookups, bit 1 hashing, bit 2 random access/exp,
 /// bit 3 base-4 splits, bit 4 the C17 gadget mix (extension arithmetic/division, reducing gates, copies, …).
 pub fn gen_prog(r: &mut Rng, n_ops: usize, features: u64) -> Prog {
@@ -424,7 +445,8 @@ pub fn gen_prog(r: &mut Rng, n_ops: usize, features: u64) -> Prog {
                 // two inputs with the same value, connected; both published
                 let v = if r.coin() { *r.pick(&boundary) } else { r.below(P) };
                 ops.push(Op::Input(v));
-                ops.push(Op::Input(v));
+                // the partner is another input or a circuit constant (`x == 7`)
+                if r.coin() { ops.push(Op::Input(v)); } else { ops.push(Op::Const(v)); }
                 let n2 = ops.len();
                 ops.push(Op::Connect(n2 - 2, n2 - 1));
                 ops.push(Op::Public(n2 - 2));
